@@ -4,6 +4,8 @@ import os
 import numpy as np
 
 from .. import engine, optics as op, refmodel as rm
+from .. import histories
+from ..histories import t_callhist        # worker task of the history harness (mc/histories.py)
 
 PID = 'C05'
 MOD = 'mc.props.c05'
@@ -186,6 +188,8 @@ def chk_norm(case, acc, seed):
 DISPATCH = {'full': chk_full, 'nested': chk_nested, 'norm': chk_norm}
 
 
+DISPATCH['histop'] = histories.chk_case
+
 def t_pupil(arg, acc):
     tier, seed, pupil = arg['tier'], arg['seed'], tuple(arg['pupil'])
     span = 5 if tier == 'quick' else 6
@@ -224,6 +228,7 @@ def run(tier, seed, acc, procs=None):
              for Nr in range(p[0], p[0] + (5 if tier == 'quick' else 6))]
     acc.states += 1
     acc.transitions += len(tasks)
+    tasks += histories.tasks_for(PID, seed)        # pairwise call histories over the operations this property is anchored in
     engine.run_parallel(MOD, tasks, acc, procs)
     return {
         'rule': 'pupil x commensurate period (N_row, N_col) independently per axis in {n..n+4} x oversample dividing N x {DFT, FFT}; '
@@ -236,5 +241,8 @@ def run(tier, seed, acc, procs=None):
 
 
 def replay(case, acc):
+    if case.get('kind') == 'histop':
+        import os as _os
+        return histories.chk_case(case, acc, int(_os.environ.get('VERIF_SEED', '0') or 0))
     seed = int(os.environ.get('VERIF_SEED', '0') or 0)
     DISPATCH[case['kind']](case, acc, seed)
